@@ -419,7 +419,7 @@ def compare_comments(o0, o1, t0, t1, upd):
         n1 = sum(1 for (p, q) in frame1 if p < c1[tok])
         if n0 != n1:
             diffs.append(("comment-moved", tok, "was after %d nodes outside the target" % n0, "is after %d" % n1))
-    if grows:
+    if grows and P != ():   # (comments at the very end of a document are kept by yq as trailing content of the document)
         new_pos = [e1["pos"] for q1, e1 in t1.items() if is_under(P, q1) and q1 not in t0 and q1 != P and e1["a"][0] in ("scalar", "alias")]
         if new_pos:
             first_new = min(new_pos)
@@ -877,7 +877,8 @@ def classify(diffs, u, t0, doc):
     P = tuple(u["path"])
     kinds = {x[0] for x in diffs}
     if kinds == {"comment-moved"} and (u.get("subtree") or u["kind"] in ("append", "create", "mapappend")):
-        cone_comments = " ".join(c for q, e in t0.items() if is_under(P, q) for c in e.get("cm", []))
+        own = (lambda q: q == P or q == P + ("#k",)) if u["kind"] in ("append", "create", "mapappend") else (lambda q: is_under(P, q))
+        cone_comments = " ".join(c for q, e in t0.items() if own(q) for c in e.get("cm", []))
         if any(re.search(re.escape(x[1]) + r"\b", cone_comments) for x in diffs):
             return "foot-comment-moves-past-next-sibling"
     if kinds == {"comment-lost"} and (u["kind"] == "delete" or (u["kind"] == "assign" and t0[P]["a"][0] in ("map", "seq"))):
